@@ -82,7 +82,7 @@ def gen_ops(tier, rng):
             for i in range(L):
                 if rng.random() < 0.08:
                     v[i] = float("nan")
-        for m in rng.sample(TRANSLATED + HAND, 5):
+        for m in rng.sample(TRANSLATED + HAND, 5) + [rng.choice(["rankcorr", "kendallcorr"])]:
             agg = rng.choice(AGGS) if m in AGG_METRICS else "mean"
             if m == "rmsf":
                 obs2 = [abs(x) + 0.5 if x == x else x for x in obs]
@@ -309,6 +309,49 @@ def _agg_py(agg, v):
     return v[n // 2] if n % 2 else (v[n // 2 - 1] + v[n // 2]) / 2.0
 
 
+def _avg_ranks(v):
+    order = sorted(range(len(v)), key=lambda i: v[i])
+    r = [0.0] * len(v)
+    i = 0
+    while i < len(order):
+        j = i
+        while j + 1 < len(order) and v[order[j + 1]] == v[order[i]]:
+            j += 1
+        for k in range(i, j + 1):
+            r[order[k]] = (i + j) / 2.0 + 1
+        i = j + 1
+    return r
+
+
+def _rank_oracle(m, o, f):
+    """Spearman: Pearson correlation of the average ranks; Kendall: tau-b.  None = undefined (a constant series)"""
+    n = len(o)
+    if len(set(o)) < 2 or len(set(f)) < 2:
+        return None
+    if m == "rankcorr":
+        ro, rf = _avg_ranks(o), _avg_ranks(f)
+        mo, mf = sum(ro) / n, sum(rf) / n
+        num = sum((x - mo) * (y - mf) for x, y in zip(ro, rf))
+        den = math.sqrt(sum((x - mo) ** 2 for x in ro) * sum((y - mf) ** 2 for y in rf))
+        return num / den
+    conc = disc = tx = ty = 0
+    for i in range(n):
+        for j in range(i + 1, n):
+            dx, dy = o[i] - o[j], f[i] - f[j]
+            if dx == 0 and dy == 0:
+                continue
+            if dx == 0:
+                tx += 1
+            elif dy == 0:
+                ty += 1
+            elif dx * dy > 0:
+                conc += 1
+            else:
+                disc += 1
+    den = math.sqrt((conc + disc + tx) * (conc + disc + ty))
+    return (conc - disc) / den if den else None
+
+
 def judge(op, impl_out, spec_out):
     a = op.split(" ")
     if common.mutated_verdict(op, impl_out):
@@ -383,6 +426,15 @@ def judge(op, impl_out, spec_out):
         if not _close(impl_out, spec_out, _tol(op)):
             return ({"kind": "definition", "metric": m},
                     "%s: implementation gives %s, textbook definition gives %s" % (m, impl_out, spec_out))
+    if m in ("rankcorr", "kendallcorr") and len(o) >= 2:
+        want = _rank_oracle(m, o, f)
+        if want is None:
+            if not math.isnan(v):
+                return ({"kind": "definition", "metric": m}, "%s of a constant series is %r, the definition is undefined (NaN)" % (m, v))
+        elif math.isnan(v) or abs(v - want) > 1e-9:
+            return ({"kind": "definition", "metric": m},
+                    "%s: implementation gives %r, the textbook definition (average ranks for ties%s) gives %r" %
+                    (m, v, "" if m == "rankcorr" else ", tau-b", want))
     if a[2] == "mean" and m in PERFECT:
         if o == f and not (math.isnan(v) or math.isinf(v)) and abs(v - PERFECT[m]) > 1e-9:
             return ({"kind": "perfect_score", "metric": m},
